@@ -1,4 +1,7 @@
+import os
+
 from check import Prop
+import vlib
 
 
 class C16(Prop):
@@ -15,6 +18,35 @@ class C16(Prop):
         text="Coq theorems over the path event loop model (all operation histories, all confs, alwaysAvailable paths included): a single optional source, stream exists iff a publisher is attached (publisher paths; an alwaysAvailable path keeps its stream from creation to Close), after every history the stream's current sub-stream is the attached publisher's (else the ready static source's, else the offline one) - never a replaced or removed publisher's -, a second publisher is rejected unchanged when overridePublisher is off, with override the old publisher is closed and the old stream torn down before the new stream is created, and on an alwaysAvailable path an overriding publisher whose tracks are refused leaves nobody attached and the offline sub-stream current. The model is tied to internal/core/path.go by running a real path on generated histories and comparing every step's events inside Coq; the property is also re-evaluated on the observed events alone.",
         note="Assumed: single-goroutine loop semantics, hot reload touching only un-modelled fields. The stale sub-stream write guard itself (SubStream.WriteUnit: only the current sub-stream's writes reach readers) is C17's model; here the observable is WHICH sub-stream is current after every step. Static sources with refused tracks on alwaysAvailable paths are not generated.",
         technique="Coq proof: state invariant (finite part checked per operation by case enumeration, list part compositionally) lifted to all histories by induction (Lib/Trace.v); correspondence by vm_compute over driver cases")
+
+
+    # the shared path-loop driver and the C16 name-life driver run in one `go test` (same package); the name
+    # cases go to a second output file.  Check/C16.v: case = CPath pcase | CName ncase.
+    def run_drivers(self, ctx, n, seed, replay=None):
+        cases, summaries, errors = [], [], []
+        outp = os.path.join(ctx.workdir, "driver_0_%d.jsonl" % n)
+        outn = os.path.join(ctx.workdir, "driver_names_%d.jsonl" % n)
+        for pth in (outp, outn):
+            if os.path.exists(pth):
+                os.remove(pth)
+        env = {"VERIF_SEED": seed, "VERIF_N": n, "VERIF_OUT": outp, "VERIF_TIER": ctx.tier, "VERIF_WORK": ctx.workdir,
+               "VERIF_OUT_NAMES": outn, "VERIF_N_NAMES": max(36, n // 8)}
+        if replay:
+            env["VERIF_REPLAY"] = replay
+        rc, out = vlib.run_driver(ctx.workdir, "internal/core", "TestVerif(PathSM|C16Names)", env, timeout=900)
+        for pth, drv, wrap in ((outp, "TestVerifPathSM", "CPath"), (outn, "TestVerifC16Names", "CName")):
+            for r in vlib.read_jsonl(pth):
+                if "summary" in r:
+                    summaries.append(r["summary"])
+                else:
+                    r["driver"] = drv
+                    r["id"] = len(cases)
+                    if r.get("coq"):
+                        r["coq"] = "(%s %s)" % (wrap, r["coq"])
+                    cases.append(r)
+        if rc != 0:
+            errors.append("drivers TestVerifPathSM / TestVerifC16Names failed (rc=%d):\n%s" % (rc, out[-6000:]))
+        return cases, summaries, errors
 
 
 PROP = C16()
